@@ -276,9 +276,11 @@ func (ns *NameStrategy) Name(t *types.Type) string {
 	case types.Interface:
 		// TODO: add to name test
 		names := []string{"Interface"}
-		for _, m := range t.Methods {
+		for methodName := range t.Methods {
 			// TODO: include function signature
-			names = append(names, m.Name.Name)
+			// (The method's name is the key; the value is its function
+			// type, which the parsers name "func (T).M(int) string".)
+			names = append(names, methodName)
 		}
 		// Methods is a map: sort, so that the name does not depend on
 		// its iteration order.
@@ -372,10 +374,13 @@ func (r *rawNamer) Name(t *types.Type) string {
 	case types.Interface:
 		// TODO: add to name test
 		elems := []string{}
-		for _, m := range t.Methods {
+		for methodName := range t.Methods {
 			// TODO: include function signature
-			elems = append(elems, m.Name.Name)
+			elems = append(elems, methodName)
 		}
+		// Methods is a map: sort, so that the name does not depend on
+		// its iteration order.
+		sort.Strings(elems)
 		name = "interface{" + strings.Join(elems, "; ") + "}"
 	case types.Func:
 		// TODO: add to name test
